@@ -757,3 +757,56 @@ def r20(ctx, P):
             ctx.ob('C10.20', not bad, fn.name, 'bisection over %s stays below its length' % show(strip_casts(probes[0]['k'][0]))[:20], '%s:%d' % (fn.file, hb.line),
                    'probe index is at most the initial upper bound, which is length - 1 (or the probe never reaches the upper bound)' if not bad else bad[0])
     ctx.floor('bisection loops', n, 1)
+
+
+# --------------------------------------------------------------------------- C10.21
+
+def r21(ctx, P):
+    """appends into the fixed-size index / summary buffers of the time-series writer are bounded"""
+    n = 0
+    for fn in P.fns_in('src/wr_ts.c'):
+        for b in fn.blocks.values():
+            for ev in b.events:
+                if ev.e is None:
+                    continue
+                for nd in walk(ev.e):
+                    if nd.get('op') != 'sub':
+                        continue
+                    idx = strip_casts(nd['k'][1])
+                    # entries[ X->...entry_count++ ]
+                    if not (idx.get('op') == 'un' and idx.get('o') in ('post++', 'pre++') and strip_casts(idx['k'][0]).get('field') == 'entry_count'):
+                        continue
+                    base = strip_casts(nd['k'][0])
+                    if base.get('op') != 'member' or base.get('field') != 'entries':
+                        continue
+                    cnt_path = fn.path(strip_casts(idx['k'][0]))
+                    n += 1
+                    ctx.saw(fn, 1)
+                    se = fn.sub_event(nd['id']) or ev
+                    # compare edges that establish  entry_count < capacity  for this very counter
+                    ok_edges = set()
+                    for bb in fn.blocks.values():
+                        c = strip_casts(bb.cond) if bb.cond is not None else None
+                        if c is None or c.get('op') != 'bin' or c['o'] not in ('<', '<=', '>', '>='):
+                            continue
+                        l, r = c['k']
+                        for x, y, flip in ((l, r, False), (r, l, True)):
+                            px = fn.path(strip_casts(x))
+                            if px is None or cnt_path is None or str(px) != str(cnt_path):
+                                continue
+                            if not any(m.get('op') == 'member' and m.get('field') in ('decimate_factor',) for m in walk(y)):
+                                continue
+                            o = c['o']
+                            if flip:
+                                o = {'<': '>', '>': '<', '<=': '>=', '>=': '<='}[o]
+                            if o == '<':
+                                ok_edges.add((bb.id, 'T'))
+                            if o == '>=':
+                                ok_edges.add((bb.id, 'F'))
+                    w = find_path(fn, 'entry', lambda e2, facts: 'target' if e2 is se else None, refine=False,
+                                  edge_ok=lambda b_, s_, label: (b_.id, label) not in ok_edges)
+                    ctx.ob('C10.21', w is None, fn.name, 'append to %s' % show(base)[:40], se.where(),
+                           'entry_count compared with the allocated capacity (decimate_factor) first' if w is None else
+                           'the entry is stored at entry_count without a bound: after a commit that failed (or with a decimation factor of 1) the count is already at the capacity and the store lands past the allocation',
+                           w.render() if w else None)
+    ctx.floor('appends to time-series index/summary buffers', n, 4)
